@@ -139,3 +139,93 @@ fn c13_reconstruct_gradient_is_full_gradient() {
     kani::cover!(nfree * N > 2 * na * (N - na));     // first branch of reconstruct_gradient
     kani::cover!(nfree * N <= 2 * na * (N - na) && nfree > 0);
 }
+
+// ---------------------------------------------------------------------------------------------
+// rho (C13: "samples with zero coefficient lie on or outside the margin, free support vectors on it and bounded ones on
+// or inside it").  With G the gradient of the dual, y_i*G_i = f(x_i) + rho - y_i, so the three margin conditions read, for
+// the published threshold rho:   y=+1: alpha=0 => rho <= y*G,  alpha at bound => rho >= y*G;
+//                                y=-1: alpha=0 => rho >= y*G,  alpha at bound => rho <= y*G;   free => rho == y*G.
+// Whenever the state admits such a rho (lb <= ub), calculate_rho() must return one; with free vectors it is their mean.
+// @unit class=bounded tier=quick mem=light bound="l=3 variables, integer-valued gradients, every status pattern" timeout=900 fns=linfa_svm::solver_smo::SolverState::calculate_rho
+#[kani::proof]
+#[kani::unwind(5)]
+#[kani::stub(alloc::fmt::format, fmt_stub)]
+fn c13_rho_respects_margin_conditions() {
+    let bounds = [2.0f32, 2.0, 2.0];
+    let status: [u8; N] = kani::any();             // 0 = at zero, 1 = free, 2 = at the upper bound
+    for t in 0..N { kani::assume(status[t] < 3); }
+    let alpha = [status[0] as f32, status[1] as f32, status[2] as f32];
+    let targets: [bool; N] = kani::any();
+    let g = [small_int(-4, 4), small_int(-4, 4), small_int(-4, 4)];
+    let ds = Array2::zeros((N, 1));
+    let k = Kernel { inner: KernelInner::Dense(Array2::zeros((N, N))), method: KernelMethod::Gaussian(1.0) };
+    let mut s = SolverState::new(alpha.to_vec(), vec![0.0; N], targets.to_vec(), ds.view(), TableKernel3 { k, q: [[0.0; N]; N] }, bounds.to_vec(),
+        SolverParams { eps: 0.001, shrinking: false }, false);
+    for t in 0..N { s.gradient[t] = g[t]; }
+    let rho = s.calculate_rho();
+    let mut nfree = 0u8;
+    let mut sum_free = 0.0f32;
+    let (mut lb, mut ub) = (f32::NEG_INFINITY, f32::INFINITY);
+    for t in 0..N {
+        let yg = if targets[t] { g[t] } else { -g[t] };
+        if status[t] == 1 { nfree += 1; sum_free += yg; }
+        else if (status[t] == 0) == targets[t] { if yg < ub { ub = yg; } }      // (alpha = 0, y = +1) or (alpha at bound, y = -1): rho <= y*G
+        else { if yg > lb { lb = yg; } }                                          // (alpha at bound, y = +1) or (alpha = 0, y = -1): rho >= y*G
+    }
+    if nfree > 0 {
+        assert!(rho == sum_free / nfree as f32);
+    } else if lb <= ub {
+        assert!(rho >= lb && rho <= ub);
+        if lb.is_finite() && ub.is_finite() { assert!(rho == (ub + lb) / 2.0); }
+    }
+    kani::cover!(nfree == 0 && lb.is_finite() && ub.is_finite() && lb < ub);
+    kani::cover!(nfree == 2);
+    kani::cover!(nfree == 0 && status[0] == 0 && status[1] == 0 && status[2] == 2);
+}
+
+// nu-formulations: two thresholds r1 (class +1) and r2 (class -1); the margin conditions bound each from both sides:
+//   alpha = 0 => G_i >= r_class,   alpha at bound => G_i <= r_class,   free => G_i == r_class.
+// The published pair is rho = (r1 - r2)/2 and r = (r1 + r2)/2; whenever feasible thresholds exist the published ones must be feasible.
+const N4: usize = 4;
+struct NullKernel4 { k: Kernel<f32> }
+impl Permutable<f32> for NullKernel4 {
+    fn swap_indices(&mut self, _i: usize, _j: usize) {}
+    fn distances(&self, _idx: usize, length: usize) -> Vec<f32> { vec![0.0; length] }
+    fn self_distance(&self, _idx: usize) -> f32 { 1.0 }
+    fn inner(&self) -> &Kernel<f32> { &self.k }
+    fn into_inner(self) -> Kernel<f32> { self.k }
+}
+// @unit class=bounded tier=quick mem=light bound="l=4 variables (two per class), integer-valued gradients, every status pattern without free variables, nu mode" timeout=900 fns=linfa_svm::solver_smo::SolverState::calculate_rho_nu
+#[kani::proof]
+#[kani::unwind(6)]
+#[kani::stub(alloc::fmt::format, fmt_stub)]
+fn c13_rho_nu_respects_margin_conditions() {
+    let bounds = [2.0f32; N4];
+    let at_upper: [bool; N4] = kani::any();
+    let alpha = [if at_upper[0] { 2.0f32 } else { 0.0 }, if at_upper[1] { 2.0 } else { 0.0 }, if at_upper[2] { 2.0 } else { 0.0 }, if at_upper[3] { 2.0 } else { 0.0 }];
+    let targets = [true, true, false, false];
+    let g = [small_int(-4, 4), small_int(-4, 4), small_int(-4, 4), small_int(-4, 4)];
+    let ds = Array2::zeros((N4, 1));
+    let k = Kernel { inner: KernelInner::Dense(Array2::zeros((N4, N4))), method: KernelMethod::Gaussian(1.0) };
+    let mut s = SolverState::new(alpha.to_vec(), vec![0.0; N4], targets.to_vec(), ds.view(), NullKernel4 { k }, bounds.to_vec(),
+        SolverParams { eps: 0.001, shrinking: false }, true);
+    for t in 0..N4 { s.gradient[t] = g[t]; }
+    let rho = s.calculate_rho();                   // dispatches to calculate_rho_nu
+    let r = s.r;
+    let (mut lb1, mut ub1, mut lb2, mut ub2) = (f32::NEG_INFINITY, f32::INFINITY, f32::NEG_INFINITY, f32::INFINITY);
+    for t in 0..N4 {
+        if targets[t] {
+            if !at_upper[t] { if g[t] < ub1 { ub1 = g[t]; } } else { if g[t] > lb1 { lb1 = g[t]; } }
+        } else {
+            if !at_upper[t] { if g[t] < ub2 { ub2 = g[t]; } } else { if g[t] > lb2 { lb2 = g[t]; } }
+        }
+    }
+    // both classes pinned from both sides (one variable at zero, one at its bound) and feasible
+    if lb1.is_finite() && ub1.is_finite() && lb2.is_finite() && ub2.is_finite() && lb1 <= ub1 && lb2 <= ub2 {
+        assert!(rho.is_finite() && r.is_finite());
+        let (r1, r2) = (r + rho, r - rho);         // exact: small dyadic rationals
+        assert!(r1 >= lb1 && r1 <= ub1);
+        assert!(r2 >= lb2 && r2 <= ub2);
+    }
+    kani::cover!(lb1.is_finite() && ub1.is_finite() && lb2.is_finite() && ub2.is_finite() && lb1 < ub1 && lb2 < ub2);
+}
